@@ -8,6 +8,7 @@ package interp
 
 import (
 	"fmt"
+	"os"
 	"go/types"
 	"strings"
 
@@ -36,7 +37,7 @@ var SummariseFns = map[string]bool{
 }
 
 // SummariesOff disables summaries (harnesses that check the summarised functions themselves).
-var SummariesOff = false
+var SummariesOff = os.Getenv("GOSYM_NOSUMMARY") != ""
 
 const summaryMaxPaths = 96
 
